@@ -269,9 +269,13 @@ def gen_prog(rng, size_static=True, collide=False, boundary=False, tame=True):
     if collide and rng.chance(0.7):
         consts = consts + [rng.choice(['x', 'y'])]
     allsyms = labels + consts
+    # boolean constants (comparisons of symbols), consumed by ternaries
+    bools = ['b%d' % i for i in range(rng.weighted([(0, 55), (1, 30), (2, 15)]))]
 
     def expr(d=0):
         k = rng.below(100)
+        if bools and d < 3 and rng.chance(0.12):
+            return '(%s ? %s : %s)' % (rng.choice(bools), expr(d + 1), expr(d + 1))
         if k < 30:
             return str(rng.below(16 if tame and rng.chance(0.8) else 300))
         if k < 40:
@@ -310,6 +314,10 @@ def gen_prog(rng, size_static=True, collide=False, boundary=False, tame=True):
         return expr()
 
     pend_l, pend_c = list(labels), list(consts)
+    pend_b = list(bools)
+
+    def bool_expr():
+        return '%s %s %d' % (rng.choice(allsyms), rng.choice(['<', '>', '<=', '>=', '==', '!=']), rng.below(24))
     n = rng.range(3, 12)
     for i in range(n):
         k = rng.below(100)
@@ -317,6 +325,8 @@ def gen_prog(rng, size_static=True, collide=False, boundary=False, tame=True):
             l = pend_l.pop(0); p.names.append(l); p.items.append(('label', l))
         elif pend_c and k < 35:
             c = pend_c.pop(0); p.names.append(c); p.items.append(('const', c, expr()))
+        elif pend_b and k < 40:
+            c = pend_b.pop(0); p.names.append(c); p.items.append(('const', c, bool_expr()))
         elif k < 75:
             ri = rng.below(len(isa.rules))
             r = isa.rules[ri]
@@ -336,6 +346,8 @@ def gen_prog(rng, size_static=True, collide=False, boundary=False, tame=True):
         p.names.append(l); p.items.append(('label', l))
     for c in pend_c:
         p.names.append(c); p.items.append(('const', c, expr()))
+    for c in pend_b:
+        p.names.append(c); p.items.append(('const', c, bool_expr()))
     return p
 
 
@@ -408,4 +420,41 @@ def gen_shift_prog(rng):
         p.names.append(pn if pn == 'k0' else 'k0'); p.items.append(('const', p.names[-1], str(rng.below(200))))
     if rng.chance(0.3):
         p.items.append(('data', 16, ['fwd + back']))
+    return p
+
+
+def gen_chain_prog(rng):
+    """directed family for convergence latency: a boolean (or integer) constant that reads a label through a chain of
+    constants declared in reverse order, so that a change of the label reaches it several passes later, with a
+    consumer placed before it"""
+    isa = Isa()
+    isa.rules.append(dict(m='ld', ops=[('expr', 'x', None, ('', ''))], prod='{ assert(x <= 0x8), 0x11 @ x`16 }', cascade=True))
+    isa.rules.append(dict(m='ld', ops=[('expr', 'x', None, ('', ''))], prod='{ assert(x > 0x8), 0x22 @ x`8 }', cascade=True))
+    p = Prog(isa)
+    k = rng.range(1, 4)
+    nld = rng.range(1, 3)
+    pad = rng.choice([0, 1, 4])
+    base = 1 + pad                      # bytes before the ld's
+    final, guess = base + 2 * nld, base + 3 * nld
+    if rng.chance(0.5):
+        final, guess = guess, final     # either direction happens depending on the operand; the threshold sits between
+    thr = rng.range(min(final, guess), max(final, guess) - 1)
+    boolean = rng.chance(0.7)
+    # consumer first
+    if boolean:
+        p.items.append(('data', 8, ['far ? 0xaa : 0x55']))
+    else:
+        p.items.append(('data', 8, ['far']))
+    if pad:
+        p.items.append(('data', 8 * pad, ['0']))
+    p.names.append('far'); p.items.append(('const', 'far', ('t%d > %d' % (k, thr)) if boolean else 't%d' % k))
+    for i in range(k, 0, -1):
+        p.names.append('t%d' % i); p.items.append(('const', 't%d' % i, ('t%d' % (i - 1)) if i > 1 else 'target'))
+    for _ in range(nld):
+        p.items.append(('instr', 0, ['d']))
+    p.names.append('target'); p.items.append(('label', 'target'))
+    p.names.append('d'); p.items.append(('const', 'd', 'd1'))
+    p.names.append('d1'); p.items.append(('const', 'd1', 'target'))
+    if rng.chance(0.3):
+        p.items.append(('data', 8, ['far ? 1 : 2'] if boolean else ['far + 1']))
     return p
